@@ -313,6 +313,11 @@ func genC05Program(r *eng.Rng, th bool) *eng.Program {
 	if th {
 		gp.MaxBatches = 10
 	}
+	if r.Chance(1, 3) {
+		eng.PartialCompactionProfile(r, &cfg, &gp)
+		gp.FirstWide = 200 + r.Intn(300)
+		gp.MaxBatches = 8
+	}
 	p := eng.GenProgram(r, "C05", cfg, gp)
 	// make sure the data gets persisted, with a caught-up reopen in the middle sometimes
 	var steps []eng.Step
